@@ -6,7 +6,7 @@
   those functions fails the obligation whatever the correspondence run happens to sample.
 -/
 namespace Frugal.Skeleton
-def decoder : String := "ccc4122215142eb0a0ebde38"
+def decoder : String := "17ca3b1513b97227a6799a0a"
 def encoder : String := "5cbdaefa998ed87261c39697"
 def resolver : String := "7421c925da242e28e65a020f"
 /-- full text (not only control structure) of `structDesc`, `tField`, `tType`, `fromDefsFields`,
